@@ -457,10 +457,13 @@ class schur_pressure_correction {
                         }
                     }
 
-                    (*L)[i] = s;
+                    // The correction may only be added back in spmv() for the
+                    // rows where it was actually subtracted from Kpp:
+                    (*L)[i] = math::zero<value_type>();
                     for(ptrdiff_t j = Kpp->ptr[i], e = Kpp->ptr[i+1]; j < e; ++j) {
                         if (Kpp->col[j] == i) {
                             Kpp->val[j] -= s;
+                            (*L)[i] = s;
                             break;
                         }
                     }
